@@ -7,6 +7,8 @@ cd /verif
 ids=("$@"); [ ${#ids[@]} -eq 0 ] && ids=($(ls seeded | grep -E '^C[0-9]{2}[a-z]$'))
 for id in "${ids[@]}"; do
   p=${id:0:3}; patch=/verif/seeded/$id/patch.diff
+  # a change whose original patch no longer applies after later repairs is kept rebased next to the original
+  [ -f /verif/seeded/$id/patch.rebased.diff ] && patch=/verif/seeded/$id/patch.rebased.diff
   if ! git -C /repo apply --check "$patch" 2>/dev/null; then echo "$id patch-does-not-apply-to-current-tree"; continue; fi
   res=silent
   for tier in quick thorough; do
